@@ -17,6 +17,7 @@ ps=[m.get('property')] if m.get('property') else []
 ps+=m.get('also',[])
 print(' '.join(ps))")
   [ -z "$props" ] && continue
+  if grep -q superseded_by $d/meta.json 2>/dev/null; then echo "$n: SUPERSEDED by a later fix (see meta.json)" | tee -a seeded/MATRIX.txt; continue; fi
   if ! git -C /tmp/mxrepo apply --check $PWD/$d/patch.diff 2>/dev/null; then echo "$n: PATCH DOES NOT APPLY" | tee -a seeded/MATRIX.txt; continue; fi
   git -C /tmp/mxrepo apply $PWD/$d/patch.diff
   for id in $props; do
